@@ -16,6 +16,7 @@ import (
 	"github.com/pingcap/kvproto/pkg/kvrpcpb"
 	tikverr "github.com/tikv/client-go/v2/error"
 	"github.com/tikv/client-go/v2/internal/mockstore/mocktikv"
+	"github.com/tikv/client-go/v2/internal/simhook"
 	"github.com/tikv/client-go/v2/internal/unionstore"
 	"github.com/tikv/client-go/v2/kv"
 	"github.com/tikv/client-go/v2/tikv"
@@ -84,6 +85,9 @@ type World struct {
 	Stores  []*tikv.KVStore
 	sc      *Scenario
 	Hist    []*TxnHist
+	goMu    sync.Mutex
+	goOcc   map[string]int
+	goHash  *simkit.Hasher
 	allKeys [][]byte
 	Reads   []SnapRead
 	readsMu sync.Mutex
@@ -144,8 +148,49 @@ func setKnobs(k Knobs) {
 	transaction.VerifSetDefaultLockTTL(def)
 }
 
+// curWorld is the world of the run in progress (one run at a time per process); the yield hook reads it.
+var curWorld atomic.Pointer[World]
+
+func init() {
+	// The verif hook of the library: yield points named "go.*" sit at the head of the background goroutines a
+	// transaction starts. Whether such a goroutine starts late, and by how much, is a function of (seed, site,
+	// n-th goroutine of that site in this run) - never of the Go scheduler.
+	simhook.Hook = func(site string) {
+		if !strings.HasPrefix(site, "go.") {
+			return
+		}
+		w := curWorld.Load()
+		if w == nil || w.sc.Knobs.GoDelayPm == 0 {
+			return
+		}
+		w.goMu.Lock()
+		n := w.goOcc[site]
+		w.goOcc[site] = n + 1
+		w.goMu.Unlock()
+		key := fmt.Sprintf("%s#%d", site, n)
+		if w.goHash.Intn("p"+key, 1000) >= w.sc.Knobs.GoDelayPm {
+			return
+		}
+		var d time.Duration
+		switch w.goHash.Intn("k"+key, 4) {
+		case 0:
+			d = time.Duration(50+w.goHash.Intn("d"+key, 950)) * time.Microsecond
+		case 1:
+			d = time.Duration(1+w.goHash.Intn("d"+key, 30)) * time.Millisecond
+		case 2:
+			d = time.Duration(30+w.goHash.Intn("d"+key, 400)) * time.Millisecond
+		default:
+			d = time.Duration(400+w.goHash.Intn("d"+key, 2600)) * time.Millisecond
+		}
+		w.Sim.Count("yield.go-delayed")
+		w.Sim.Count("yield." + site)
+		time.Sleep(d)
+	}
+}
+
 func newWorld(s *simkit.Sim, sc *Scenario) (*World, error) {
-	w := &World{Sim: s, sc: sc, TSO: &simkit.TSO{}}
+	w := &World{Sim: s, sc: sc, TSO: &simkit.TSO{}, goOcc: map[string]int{}, goHash: simkit.NewHasher(s.Seed, "go-start")}
+	curWorld.Store(w)
 	mvcc, err := mocktikv.NewMVCCLevelDB("")
 	if err != nil {
 		return nil, err
@@ -210,6 +255,7 @@ func newWorld(s *simkit.Sim, sc *Scenario) (*World, error) {
 }
 
 func (w *World) close() {
+	curWorld.Store(nil)
 	w.Net.Shutdown()
 	for _, st := range w.Stores {
 		_ = st.Close()
